@@ -268,6 +268,27 @@ fn check_c05<T: Sc>(ctx: &Ctx, c: &Case, su: &Setup<T>, o: &Outcome<T>) {
             }
         }
     }
+    // the problem handed back is itself a problem at (near) the minimiser: fitting it again succeeds and stays there
+    {
+        let second = guarded(|| fit.problem().clone_box().fit(c.solver.make::<T>()));
+        match second {
+            Err(m) => ctx.with(|s| s.violate("C05", "refit-panicked", cj(), m)),
+            Ok(f2) => {
+                if !f2.ok {
+                    ctx.with(|s| s.violate("C05", "refit-failed", cj(), format!("fitting the returned problem again ended with {}", f2.termination)));
+                } else {
+                    let a2: Vec<T> = f2.alpha().iter().cloned().collect();
+                    if let Some(c2) = f2.coef() {
+                        let (w2, _) = wrss(su, &a2, &mat_d(&c2));
+                        if !(w2 <= w_fit * (1.0 + 1e-6) + slack) {
+                            ctx.with(|s| s.violate("C05", "refit-worse", cj(), format!("weighted sum of squares after refitting the returned problem {:e} exceeds {:e}", w2, w_fit)));
+                        }
+                    }
+                    ctx.with(|s| s.inc("refits_checked"));
+                }
+            }
+        }
+    }
     ctx.with(|s| {
         s.inc("distinct_nontrivial");
         s.max("C05_max_evaluations", fit.n_eval as f64);
